@@ -60,6 +60,7 @@ fn gen(rng: &mut Rng, idx: u64, tier: Tier) -> Case {
             a1.push(format!("--observer-coord={:.3},{:.3}", rng.f64() * 160.0 - 80.0, rng.f64() * 340.0 - 170.0));
             if rng.chance(0.7) { a2.push(format!("--observer-coord={:.3}, {:.3}", rng.f64() * 160.0 - 80.0, rng.f64() * 340.0 - 170.0)); }
         }
+        gen::long_uptime(rng, &mut lines, 0.03);
         let ch = *rng.pick(&[Chunking::Line, Chunking::Line, Chunking::Multi, Chunking::Pieces]);
         let mut script = Script::file(a1, vec![]);
         script.tcp = rng.chance(0.25);
@@ -98,6 +99,7 @@ fn gen(rng: &mut Rng, idx: u64, tier: Tier) -> Case {
             lines.push((dt, line.clone(), format!("{:?}", k).to_lowercase()));
             if rng.chance(0.05) { lines.push((0, line, format!("{:?}:duplicate", k).to_lowercase())); }
         }
+        gen::long_uptime(rng, &mut lines, 0.03);
         let ch = *rng.pick(&[Chunking::Line, Chunking::Line, Chunking::Multi]);
         let script = Script::file(base.clone(), gen::ops_of(rng, lines, ch));
         let mut a2 = base;
